@@ -168,9 +168,10 @@ def run(prop, tier, *, mc_module, mc_cfg, driver, trace_module, trace_spec="TSpe
             with open(nxt, "w") as f:
                 f.writelines(rest)
             cur_chunk, cur = nxt, validate(trace_module, trace_spec, nxt, trace_consts, wd)
-    if unreproduced and not violations:
+    if unreproduced and not violations and not part:
         raise C.Infra("%d rejected traces, none of which reproduced in isolation (first: %s)" % (len(unreproduced), unreproduced[0]))
     code = 0 if part else C.settle(prop, violations)
+    cov_unreproduced = list(unreproduced) if part else []
     cov = {
         "states": r.distinct, "transitions": r.generated,
         "traces_validated_against_impl": summ["runs"],
@@ -182,6 +183,8 @@ def run(prop, tier, *, mc_module, mc_cfg, driver, trace_module, trace_spec="TSpe
         "rule": rule or "every terminal case of the model-checked specification is replayed against the real code; the recorded trace must be a behaviour of the trace specification",
         "model_cfg": mc_cfg.strip().splitlines(),
     }
+    if cov_unreproduced:
+        cov["unreproduced"] = cov_unreproduced
     if notes:
         cov["notes"] = notes
         for nn in notes:
@@ -209,6 +212,12 @@ def combine(prop, tier, parts, t0, level="model_checking"):
                 assumptions.append(a)
         cov["parts"][name] = {k: c[k] for k in c if k not in ("samples",)}
     cov["rule"] = "; ".join("%s: %s" % (n, c.get("rule", "")) for n, _, c in parts)[:1500]
+    unrep = [u for _, _, c in parts for u in c.get("unreproduced", [])]
+    if unrep and not violations:
+        # rejections that reproduce neither alone nor after their predecessors, and no part that explains them: not a verdict
+        raise C.Infra("%d rejected traces, none of which reproduced in isolation (first: %s)" % (len(unrep), unrep[0]))
+    if unrep:
+        C.log("NOTE [%s] %d further rejected traces did not reproduce on their own (e.g. %s); the reproduced violations above stand" % (prop, len(unrep), unrep[0]))
     code = C.settle(prop, violations)
     C.write_evidence(prop, tier, level, cov, time.time() - t0, len(violations), assumptions)
     return code
